@@ -278,7 +278,9 @@ def jobs(tier):
         for tg in (False, True):
             out.append(Job(f"cusum-hist-b{burn}-tg{int(tg)}", "checks.c04:body_cusum_hist",
                            {"burn": burn, "direction": None, "N": burn + (2 if q else 3), "target_given": tg},
-                           expect=("state-drift",)))
+                           expect=("state-drift",),
+                           # a deviation forced to 0 does not end the path (numpy gives inf / nan and goes on)
+                           opts={} if tg else {"div_policy": "havoc_zero"}))
     for burn in (2, 3):
         out.append(Job(f"cusum-zero-deviation-b{burn}", "checks.c04:body_cusum_zero_deviation", {"burn": burn},
                        expect=("zero-sd",), opts={"div_policy": "havoc_zero", "validate": 1}))
